@@ -13,6 +13,9 @@ type Parser struct {
 
 	unsupported bool
 
+	// update clauses (SET, REMOVE, ADD, DELETE) already parsed
+	seenClauses map[TokenType]bool
+
 	prefixParseFns map[TokenType]prefixParseFn
 	infixParseFns  map[TokenType]infixParseFn
 }
@@ -375,6 +378,17 @@ func (p *Parser) parseUnsupportedExpression() Expression {
 }
 
 func (p *Parser) parseUpdateActionExpression() Expression {
+	if p.seenClauses == nil {
+		p.seenClauses = map[TokenType]bool{}
+	}
+
+	if p.seenClauses[p.curToken.Type] && len(p.errors) == 0 {
+		msg := fmt.Sprintf("Syntax error; the %s section can only be used once in an update expression", p.curToken.Literal)
+		p.errors = append(p.errors, msg)
+	}
+
+	p.seenClauses[p.curToken.Type] = true
+
 	expression := &UpdateExpression{
 		Token:       p.curToken,
 		Expressions: p.parseActions(p.curToken),
